@@ -73,9 +73,11 @@ def fault_family(rng, dbdir, imgdir):
             body.append('del %s' % proto.arg(rng.choice(keys)))
         elif r < 11:
             body.append('get %s' % proto.arg(rng.choice(keys)))
+        elif rng.chance(1, 3):
+            body += ['close', 'open %s %s' % (dbdir, opts)]
         else:
             body.append('flushmem')
-    tail = []
+    tail = ['ensureopen %s %s' % (dbdir, opts)]
     for i in range(rng.range(2, 10)):
         tail.append('put %s @%d~%d' % (proto.arg(rng.choice(keys)), seedv + 500 + i, rng.range(300, 3000)))
     for k in keys[:12]:
